@@ -187,6 +187,15 @@ def handle (toks : List String) : String :=
       let live := (liveHandles fin).map (fun h => toString h.deadline)
       "ok " ++ " ; ".intercalate (outs.map showTOut) ++ " | " ++ ",".intercalate live
     | _, _ => "bad-arg"
+  | "tvrecv" :: fmt :: tmo :: now :: evs => match tmo.toNat?, ofHex now, evs.mapM parseTEv with
+    | some timeout, some nowB, some es =>
+      let fmt := if fmt == "@default" then DEFAULT_FORMAT else fmt
+      let L := lowOf fmt (Astm.Vendor.vendorOf nowB)
+      let outs := trun L timeout TConn.init es
+      let fin := tstate L timeout TConn.init es
+      let live := (liveHandles fin).map (fun h => toString h.deadline)
+      "ok " ++ " ; ".intercalate (outs.map showTOut) ++ " | " ++ ",".intercalate live
+    | _, _, _ => "bad-arg"
   | ["default-timeout"] => s!"ok {TIMEOUT}"
   | "vrecv" :: fmt :: now :: evs => match ofHex now, evs.mapM parseEv with
     | some nowB, some es =>
